@@ -56,6 +56,9 @@ def check_correlations(case):
     else:
         index = None
     df = pandas.DataFrame(A.copy(), columns=cols, index=index)
+    for j in case.get("object_columns", []):
+        # numbers held in a column of dtype object (what read_csv with mixed markers or a concat of heterogeneous frames leaves behind)
+        df[cols[j % k]] = df[cols[j % k]].astype(object)
     facts = dict(k=k, n=n, model=case["model"], draws=case["draws"], minmax=case["minmax"], dtype=case["dtype"], index=ik)
     A0 = A.copy()
     df0 = df.copy(deep=True)
@@ -125,7 +128,7 @@ def check_correlations(case):
         require(bool(np.all(np.abs(dg[learnable] - 1) <= 1e-9)), "diagonal:not-1", "diagonal %r (identity learnable: %r)" % (dg.tolist(), learnable.tolist()), facts)
     const = bool(np.any(A.std(axis=0) == 0))
     return Outcome([case["model"], "k=%d" % k, "draws=%d" % case["draws"], "minmax" if case["minmax"] else "single", case["dtype"],
-                    "const-col" if const else "no-const-col", "index:" + ik], k >= 2 and case["draws"] >= 2)
+                    "const-col" if const else "no-const-col", "index:" + ik, "object-column" if case.get("object_columns") else "numeric-dtypes"], k >= 2 and case["draws"] >= 2)
 
 
 @st.composite
@@ -153,7 +156,8 @@ def _cor_cases(draw, tier="quick"):
     return dict(table=table, columns=labels, dtype=dtype, model=draw(st.sampled_from(["linear", "linear", "tree", "dummy", "sticky-warm"])),
                 draws=draw(st.integers(1, 4)), minmax=draw(st.booleans()), seed=draw(st.integers(0, 2**31 - 2)),
                 index=draw(st.sampled_from(["default", "default", "permuted", "repeated", "strings"])),
-                index_keys=draw(st.lists(st.integers(0, 10**6), min_size=40, max_size=40)))
+                index_keys=draw(st.lists(st.integers(0, 10**6), min_size=40, max_size=40)),
+                object_columns=draw(st.lists(st.integers(0, 4), min_size=1, max_size=2)) if draw(st.integers(0, 4)) == 0 else [])
 
 
 # ------------------------------------------------------------------------ r2_score_comparable
